@@ -823,8 +823,13 @@ def rule_flags(fx, rep):
     flags = {v["name"]: v["discr"] for v in fx.adt("moves::Flags")["variants"]}
     cap = fx.const("moves::CAPTURE_FLAG_BIT")["int"]
     pro = fx.const("moves::PROMOTION_FLAG_BIT")["int"]
-    capm = fx.const("moves::CAPTURE_BIT_MASK")["int"]
-    prom = fx.const("moves::PROMOTION_BIT_MASK")["int"]
+    def opt_const(name):
+        try:
+            return fx.const(name)["int"]
+        except Exception:
+            return None
+    capm = opt_const("moves::CAPTURE_BIT_MASK")
+    prom = opt_const("moves::PROMOTION_BIT_MASK")
     srcm = fx.const("moves::SRC_MASK")["int"]
     dstm = fx.const("moves::DST_MASK")["int"]
     dsh = fx.const("moves::DST_SHIFT")["int"]
@@ -837,7 +842,7 @@ def rule_flags(fx, rep):
         ("labels fit the nibble", all(0 <= v < 16 for v in flags.values())),
         ("capture bit exactly in capturing labels", all(((v & cap) != 0) == (k in cap_set) for k, v in flags.items())),
         ("promotion bit exactly in promoting labels", all(((v & pro) != 0) == (k in pro_set) for k, v in flags.items()) and len(pro_set) == 8),
-        ("bit masks agree with flag bits", capm == cap << fsh and prom == pro << fsh),
+        ("bit masks agree with flag bits", (capm is None or capm == cap << fsh) and (prom is None or prom == pro << fsh)),
         ("field masks partition 16 bits", srcm & dstm == 0 and (srcm | dstm | (0xF << fsh)) == 0xFFFF and dstm == 0x3F << dsh and srcm == 0x3F),
         ("Quiet is 0", flags.get("Quiet") == 0),
     ]
@@ -846,6 +851,28 @@ def rule_flags(fx, rep):
         rep.obligation(good)
         if not good:
             bad(f"const/{name.replace(' ', '-')}", f"move-label constants inconsistent: {name} fails (discriminants {flags})", mnew)
+    # (ii') the label predicates, evaluated by the analyser on every declared label: is_capture is true exactly for the capturing
+    # labels (whether it tests the capture bit or matches on the decoded label; seed C01-6a left one label out of the match)
+    import pC16
+    for pred, want_set in (("Move::is_capture", cap_set),):
+        pbs = fx.find(pred)
+        if len(pbs) != 1:
+            continue
+        wrong, undecided = [], False
+        for name, dv in sorted(flags.items()):
+            r = pC16.bits_eval(fx, ("call", pbs[0].name, (("arg", 1),)), {1: (dv << fsh) | 0x041})
+            if r is None:
+                undecided = True
+                break
+            if bool(r) != (name in want_set):
+                wrong.append((name, bool(r)))
+        if undecided:
+            rep.notes.append(f"C01-FLAGS: `{pred}` could not be evaluated on the declared labels; not decided")
+            continue
+        n += 1
+        rep.obligation(not wrong)
+        if wrong:
+            bad(f"pred/{pred}", f"`{pred}` answers {wrong[0][1]} for a move labelled {wrong[0][0]}" + (f" (and {len(wrong) - 1} more labels)" if len(wrong) > 1 else ""), pbs[0])
     # (iii) promotion tables: writer (kind -> label) and reader (label -> kind) agree
     kinds = {v["discr"]: v["name"] for v in fx.adt("piece::PromotionPieceKind")["variants"]}
     fl_by_discr = {v: k for k, v in flags.items()}
@@ -1256,6 +1283,12 @@ MUTANTS = [
      "edits": [("src/chess/movegen/attackers.rs", "    attackers |= tables::king_attacks(square) & board.king(them);\n\n    attackers\n}\n\npub fn all_attackers_of", "    attackers\n}\n\npub fn all_attackers_of")]},
     {"name": "attacker set cut short once a pawn attacker is found (seed C01-5b)", "expect": "C01-ATTACKERS/partial",
      "edits": [("src/chess/movegen/attackers.rs", "    // Knights: A square is attacked by any squares a knight could reach if it were on that square\n    attackers |=", "    if attackers.any() {\n        return attackers;\n    }\n    attackers |=")]},
+    {"name": "is_capture by a match that leaves out the knight capture-promotion (seed C01-6a)", "expect": "C01-FLAGS/pred/Move::is_capture",
+     "edits": [(MV, "        (self.data() & CAPTURE_BIT_MASK) == CAPTURE_BIT_MASK\n", "        matches!(\n            self.flags(),\n            Flags::Capture\n                | Flags::EnPassant\n                | Flags::CaptureAndPromoteToBishop\n                | Flags::CaptureAndPromoteToRook\n                | Flags::CaptureAndPromoteToQueen\n        )\n"),
+               (MV, "const CAPTURE_BIT_MASK: u16 = 0b0001_0000_0000_0000;\n", "")]},
+    {"name": "benign: is_capture by a match over all six capturing labels", "benign": True,
+     "edits": [(MV, "        (self.data() & CAPTURE_BIT_MASK) == CAPTURE_BIT_MASK\n", "        matches!(\n            self.flags(),\n            Flags::Capture\n                | Flags::EnPassant\n                | Flags::CaptureAndPromoteToBishop\n                | Flags::CaptureAndPromoteToKnight\n                | Flags::CaptureAndPromoteToRook\n                | Flags::CaptureAndPromoteToQueen\n        )\n"),
+               (MV, "const CAPTURE_BIT_MASK: u16 = 0b0001_0000_0000_0000;\n", "")]},
     {"name": "move list capacity below the 218-move maximum (seed C01-5a)", "expect": "C01-CAPACITY",
      "edits": [("src/chess/moves.rs", "const MAX_LEGAL_MOVES: usize = 218;", "const MAX_LEGAL_MOVES: usize = 200;")]},
     {"name": "diagonal attackers exclude queens", "expect": "C01-ATTACKERS/bishop_attacks",
